@@ -130,6 +130,7 @@ pub struct Srv {
     pub shared: SharedSystem,
     pub addr: std::net::SocketAddr,
     pub http_addr: std::net::SocketAddr,
+    pub down: bool,
     pub clients: HashMap<String, IggyClient>,
     pub clock: u64,
     pub tokens: HashMap<String, String>,
@@ -157,7 +158,7 @@ impl Srv {
     pub async fn start(dir: &Path, cfg: &Value) -> Result<Srv, IggyError> {
         let config = build_config(dir, cfg);
         let (shared, addr, http_addr) = start_system(config.clone()).await?;
-        Ok(Srv { dir: dir.to_path_buf(), cfg: cfg.clone(), config, shared, addr, http_addr, clients: HashMap::new(), clock: T0, tokens: HashMap::new() })
+        Ok(Srv { dir: dir.to_path_buf(), cfg: cfg.clone(), config, shared, addr, http_addr, down: false, clients: HashMap::new(), clock: T0, tokens: HashMap::new() })
     }
 
     pub async fn restart(&mut self, graceful: bool, new_cfg: Option<&Value>) -> Result<(), IggyError> {
@@ -270,6 +271,9 @@ impl Srv {
         verif_clock::set(self.clock);
         let cname = op.get("c").and_then(|v| v.as_str()).unwrap_or("root").to_string();
         let name = s(op, "op").to_string();
+        if self.down && !matches!(name.as_str(), "restart" | "crash" | "tree" | "grep" | "advance" | "corrupt_last_log") {
+            return json!({"r": "err", "code": 0, "name": "server_down"});
+        }
         match name.as_str() {
             // ---------------- white-box / control
             "advance" => {
@@ -278,10 +282,17 @@ impl Srv {
                 json!({"r": "ok", "now": self.clock})
             }
             "restart" => {
-                let graceful = op.get("graceful").and_then(|v| v.as_bool()).unwrap_or(true);
+                let graceful = op.get("graceful").and_then(|v| v.as_bool()).unwrap_or(true) && !self.down;
                 match self.restart(graceful, op.get("cfg")).await {
-                    Ok(()) => json!({"r": "ok"}),
-                    Err(e) => err_json(&e),
+                    Ok(()) => {
+                        self.down = false;
+                        json!({"r": "ok"})
+                    }
+                    Err(e) => {
+                        // the server did not come up: nothing answers until a later start succeeds
+                        self.down = true;
+                        err_json(&e)
+                    }
                 }
             }
             "crash" => {
@@ -308,15 +319,34 @@ impl Srv {
                 }
                 match start_system(self.config.clone()).await {
                     Ok((shared, addr, http_addr)) => {
+                        self.down = false;
                         self.shared = shared;
                         self.addr = addr;
                         self.http_addr = http_addr;
                         json!({"r": "ok", "applied": applied})
                     }
                     Err(e) => {
+                        self.down = true;
                         let mut v = err_json(&e);
                         v["applied"] = json!(applied);
                         v
+                    }
+                }
+            }
+            "corrupt_last_log" => {
+                // flips one bit in the last byte of the newest non-empty log file of a partition (a stored payload byte)
+                let dir = self.dir.join(format!("streams/{}/topics/{}/partitions/{}", u(op, "stream"), u(op, "topic"), u(op, "partition")));
+                let mut logs: Vec<std::path::PathBuf> = std::fs::read_dir(&dir).map(|rd| rd.flatten().map(|e| e.path()).filter(|p| p.extension().map(|x| x == "log").unwrap_or(false)
+                    && std::fs::metadata(p).map(|m| m.len() > 0).unwrap_or(false)).collect()).unwrap_or_default();
+                logs.sort();
+                match logs.last() {
+                    None => json!({"r": "err", "name": "no_log"}),
+                    Some(p) => {
+                        let mut b = std::fs::read(p).unwrap();
+                        let n = b.len();
+                        b[n - 1] ^= 1;
+                        std::fs::write(p, &b).unwrap();
+                        json!({"r": "ok", "file": p.file_name().unwrap().to_string_lossy(), "len": n})
                     }
                 }
             }
